@@ -457,6 +457,155 @@ def ptsLoopI (L : Lex) : List Line → Nat → Option Nat → Except Err (List P
        | .error e => .error e
        | .ok ps => .ok (ptsPoint l.toks :: ps), r.2 + 1)
 
+/-- `binFaceLists` with the number of `listBinaryPropertyReader.Read` calls -/
+def binFaceListsI (be : Bool) : List ListProp → List UInt8 → Option (List Nat × List UInt8 × List UInt8) × Nat
+  | [], bs => (some ([], [], bs), 0)
+  | p :: ps, bs =>
+    match binList be p bs with
+    | none => (none, 1)
+    | some (c, raw, r) =>
+      let q := binFaceListsI be ps r
+      (match q.1 with
+       | none => none
+       | some (cs, raws, r') => some (c :: cs, raw ++ raws, r'), q.2 + 1)
+
+/-- `binFace` with its list reads plus one for the iteration itself -/
+def binFaceI (be : Bool) (f : FaceHdr) (bs : List UInt8) : Except Err (Face × List UInt8) × Nat :=
+  let q := binFaceListsI be f.lists bs
+  (match q.1 with
+   | none => .error .short
+   | some (cs, raw, r) =>
+     match cs[f.idx]? with
+     | none => .error .malformed
+     | some pts => if pts < 3 ∨ 4 < pts then .error .malformed else .ok (⟨pts, raw⟩, r), q.2 + 1)
+
+/-- `binFaces` with the total number of iterations (faces + list reads) -/
+def binFacesI (be : Bool) (f : FaceHdr) : Nat → List UInt8 → Except Err (List Face) × Nat
+  | 0, _ => (.ok [], 0)
+  | n + 1, bs =>
+    let q := binFaceI be f bs
+    match q.1 with
+    | .error e => (.error e, q.2)
+    | .ok (fc, r) =>
+      let t := binFacesI be f n r
+      (match t.1 with
+       | .error e => .error e
+       | .ok fs => .ok (fc :: fs), q.2 + t.2)
+
+/-- binary body with all its iterations: vertex record reads, face iterations, list reads -/
+def readPlyBinBodyI (h : Hdr) (be : Bool) (body : List UInt8) : Except Err BinMesh × Nat :=
+  let q := readArraysI (List.replicate h.vcount h.vsize) body
+  match q.1 with
+  | none => (.error .short, q.2)
+  | some (vs, r) =>
+    match h.face with
+    | none => (.ok ⟨vs, []⟩, q.2)
+    | some f =>
+      let t := binFacesI be f f.count r
+      (match t.1 with
+       | .error e => .error e
+       | .ok fs => .ok ⟨vs, fs⟩, q.2 + t.2)
+
+/-- `stl.Read` with its reads -/
+def readStlI (bs : List UInt8) : Except Err (List (List UInt8)) × Nat :=
+  let q := readArraysI [80, 4] bs
+  match q.1 with
+  | some ([_, c], r) =>
+    let t := readArraysI (List.replicate (leNat c) 50) r
+    (match t.1 with
+     | some (tris, _) => .ok tris
+     | none => .error .short, q.2 + t.2)
+  | _ => (.error .short, q.2)
+
+/-- `scanLinesAux` with one step per byte (and one for the end of input) -/
+def scanLinesAuxI : List UInt8 → List UInt8 → List (List UInt8) × Nat
+  | [], cur => (if cur.isEmpty then [] else [dropCR cur.reverse], 1)
+  | b :: bs, cur =>
+    if b = 10 then
+      let q := scanLinesAuxI bs []
+      (dropCR cur.reverse :: q.1, q.2 + 1)
+    else
+      let q := scanLinesAuxI bs (b :: cur)
+      (q.1, q.2 + 1)
+
+/-- `fieldsAux` with one step per byte -/
+def fieldsAuxI : List UInt8 → List UInt8 → List Tok × Nat
+  | [], cur => (if cur.isEmpty then [] else [cur.reverse], 1)
+  | b :: bs, cur =>
+    if isSpace b then
+      let q := fieldsAuxI bs []
+      (if cur.isEmpty then q.1 else cur.reverse :: q.1, q.2 + 1)
+    else
+      let q := fieldsAuxI bs (b :: cur)
+      (q.1, q.2 + 1)
+
+/-- `scanLines`: the line scan plus the field split of every line -/
+def scanLinesI (bs : List UInt8) : List Line × Nat :=
+  let q := scanLinesAuxI bs []
+  (q.1.map fun r => ⟨r, (fieldsAuxI r []).1⟩, q.2 + (q.1.map fun r => (fieldsAuxI r []).2).sum)
+
+/-- `asciiFaceLine` with one step per list reader run (and one for the final check) -/
+def asciiFaceLineI (L : Lex) (f : FaceHdr) : Nat → Nat → List Tok → Option Nat → Except Err Nat × Nat
+  | _, 0, _, pts =>
+    (match pts with
+     | none => .error .malformed
+     | some p => if p < 3 ∨ 4 < p then .error .malformed else .ok p, 1)
+  | i, n + 1, toks, pts =>
+    match asciiList L toks with
+    | none => (.error .short, 1)
+    | some (es, rest) =>
+      if entriesOk L f i es then
+        let q := asciiFaceLineI L f (i + 1) n rest (if i = f.idx then some es.length else pts)
+        (q.1, q.2 + 1)
+      else (.error .malformed, 1)
+
+/-- `asciiFaces` counting the line iterations AND the list readers run on each line -/
+def asciiFacesJ (L : Lex) (f : FaceHdr) : List Line → Nat → Except Err (List (Nat × List Tok)) × Nat
+  | _, 0 => (.ok [], 0)
+  | [], _ + 1 => (.error .short, 1)
+  | l :: ls, n + 1 =>
+    if l.blank then
+      let r := asciiFacesJ L f ls (n + 1)
+      (r.1, r.2 + 1)
+    else
+      let q := asciiFaceLineI L f 0 f.lists.length l.toks none
+      match q.1 with
+      | .error e => (.error e, q.2 + 1)
+      | .ok p =>
+        let r := asciiFacesJ L f ls n
+        (match r.1 with
+         | .error e => .error e
+         | .ok fs => .ok ((p, l.toks) :: fs), q.2 + 1 + r.2)
+
+/-- ASCII body on the BYTES: line scan, field split, vertex loop, face loop (number syntax of the tokens aside) -/
+def readPlyAsciiBytesI (L : Lex) (h : Hdr) (body : List UInt8) : Except Err AsciiMesh × Nat :=
+  let s := scanLinesI body
+  let v := asciiVertsI L h.nprops s.1 h.vcount
+  match v.1 with
+  | .error e => (.error e, s.2 + v.2)
+  | .ok (vs, r) =>
+    match h.face with
+    | none => (.ok ⟨vs, []⟩, s.2 + v.2)
+    | some f =>
+      let t := asciiFacesJ L f r f.count
+      (match t.1 with
+       | .error e => .error e
+       | .ok fs => .ok ⟨vs, fs⟩, s.2 + v.2 + t.2)
+
+/-- `pts.ReadPointCloud` on the bytes: line scan, field split, point loop -/
+def readPtsI (L : Lex) (bs : List UInt8) : Except Err (List PtsPoint) × Nat :=
+  let s := scanLinesI bs
+  match s.1 with
+  | [] => (.error .malformed, s.2)
+  | c :: ls =>
+    match L.atoi? c.raw with
+    | none => (.error .malformed, s.2)
+    | some n =>
+      if n < 0 then (.error .malformed, s.2)
+      else
+        let t := ptsLoopI L ls n.toNat none
+        (t.1, s.2 + t.2)
+
 /-! ## the pinned ASCII face loop (before bd55314), kept as a record of the defect
 
   `for i < count { scanner.Scan(); line := scanner.Text(); if line == "" { continue }; … i++ }`
